@@ -52,7 +52,9 @@ def main():
     if checks is None:
         checks = [prop]
     patch = os.path.join(dst, 'patch.diff')
-    rc, out = sh(['git', '-C', '/repo', 'apply', '--check', patch])
+    # (the confirm-only pipeline must not look at /repo's working tree: the sensitivity pipeline may
+    # have another mutant applied there at this moment)
+    rc, out = sh(['git', '-C', '/repo', 'apply', '--check', patch]) if sens else (0, '')
     if rc != 0:
         meta['confirm'] = {'applies': False, 'detail': out[-500:]}
         json.dump(meta, open(os.path.join(dst, 'meta.json'), 'w'), indent=1)
